@@ -138,11 +138,12 @@ class YosysBehavioralRTLIRToVVisitorL1( BehavioralRTLIRToVVisitorL1 ):
 
     if value is None:
       node.value._top_expr = 1
-      value_str = s.visit( node.value )
       cur_nbits = node.value.Type.get_dtype().get_length()
       if cur_nbits == nbits:
-        return value_str
-      elif cur_nbits > nbits:
+        # The operand itself takes the place of the cast
+        return s.visit_expr_wrap( node.value )
+      value_str = s.visit( node.value )
+      if cur_nbits > nbits:
         msb = nbits-1
         return f"{value_str}[{msb}:0]"
       else:
